@@ -995,6 +995,8 @@ static void append(char*& str, char*& end, int& size, const char* s)
     }
 }
 
+static inline std::ostream& embrace(std::ostream& os, bool old, const expression_t& expr, int precedence);
+
 std::ostream& expression_t::print_bound_type(std::ostream& os, expression_t e) const
 {
     if (e.get_kind() == CONSTANT) {
@@ -1004,7 +1006,7 @@ std::ostream& expression_t::print_bound_type(std::ostream& os, expression_t e) c
             os << "#";
         }
     } else {
-        e.print(os, false);
+        embrace(os, false, e, get_precedence(LE));  // "p ? x : y<=10" would read as p ? x : (y <= 10)
     }
     os << "<=";
     return os;
@@ -1191,7 +1193,7 @@ std::ostream& expression_t::print(std::ostream& os, bool old) const
     case PROBA_MIN_DIAMOND:  // 3 = predicate, 4 = probability bound
         os << "Pr[";
         print_bound_type(os, get(1));
-        get(2).print(os, old);
+        embrace(os, old, get(2), get_precedence(LE));
         print_number_of_runs(os, get(0));
         os << (flag ? "]([] " : "](<> ");
         print_double(get(3).print(os, old) << ") >= ", get(4).get_double_value());
@@ -1201,7 +1203,7 @@ std::ostream& expression_t::print(std::ostream& os, bool old) const
     case PROBA_DIAMOND:  // 3 = predicate, 4 = until condition (true unless written as "p U q")
         os << "Pr[";
         print_bound_type(os, get(1));
-        get(2).print(os, old);
+        embrace(os, old, get(2), get_precedence(LE));
         print_number_of_runs(os, get(0));
         if (!flag && !get(4).is_true()) {
             get(3).print(os << "](", old) << " U ";
@@ -1214,7 +1216,7 @@ std::ostream& expression_t::print(std::ostream& os, bool old) const
     case PROBA_EXP:  // 3 = aggregation (0 = min, 1 = max), 4 = monitored expression
         os << "E[";
         print_bound_type(os, get(1));
-        get(2).print(os, old);
+        embrace(os, old, get(2), get_precedence(LE));
         print_number_of_runs(os, get(0));
         os << "] (" << (get(3).get_value() ? "max: " : "min: ");
         get(4).print(os, old) << ")";
@@ -1223,13 +1225,13 @@ std::ostream& expression_t::print(std::ostream& os, bool old) const
     case PROBA_CMP:
         os << "Pr[";
         print_bound_type(os, get(0));
-        get(1).print(os, old) << "] (";
+        embrace(os, old, get(1), get_precedence(LE)) << "] (";
         os << (get(2).get_value() == kind_t::BOX ? "[] " : "<> ");
         get(3).print(os, old) << ") >= ";
 
         os << "Pr[";
         print_bound_type(os, get(4));
-        get(5).print(os, old) << "] (";
+        embrace(os, old, get(5), get_precedence(LE)) << "] (";
         os << (get(6).get_value() == kind_t::BOX ? "[] " : "<> ");
         get(7).print(os, old) << ")";
         break;
@@ -1238,7 +1240,7 @@ std::ostream& expression_t::print(std::ostream& os, bool old) const
     case SIMULATEREACH:
         os << "simulate[";
         print_bound_type(os, get(1));
-        get(2).print(os, old) << "; ";
+        embrace(os, old, get(2), get_precedence(LE)) << "; ";
         get(0).print(os, old) << "] {";
         nb = get_size() - 5;
         if (nb > 0) {
@@ -1253,7 +1255,7 @@ std::ostream& expression_t::print(std::ostream& os, bool old) const
     case SIMULATE:
         os << "simulate[";
         print_bound_type(os, get(1));
-        get(2).print(os, old) << "; ";
+        embrace(os, old, get(2), get_precedence(LE)) << "; ";
         get(0).print(os, old) << "] {";
         nb = get_size() - 3;
         if (nb > 0) {
@@ -1598,7 +1600,7 @@ std::ostream& expression_t::print(std::ostream& os, bool old) const
         assert(false);
         os << "control[";
         print_bound_type(os, get(0));
-        get(1).print(os, old) << "]: ";
+        embrace(os, old, get(1), get_precedence(LE)) << "]: ";
         get(2).print(os, old);
         break;
 
@@ -1611,10 +1613,10 @@ std::ostream& expression_t::print(std::ostream& os, bool old) const
             if (bool is_step_bound = (get(0).get_value() == 0))
                 os << "#";
         } else {
-            get(0).print(os, old);
+            embrace(os, old, get(0), get_precedence(LE));
         }
         os << "<=";
-        get(1).print(os, old);
+        embrace(os, old, get(1), get_precedence(LE));
         os << "]";
         if (auto features1 = get(5); features1.get_kind() == Constants::LIST) {
             features1.print(os << " {", old);
@@ -1635,10 +1637,10 @@ std::ostream& expression_t::print(std::ostream& os, bool old) const
             if (bool is_step_bound = (get(0).get_value() == 0))
                 os << "#";
         } else {
-            get(0).print(os, old);
+            embrace(os, old, get(0), get_precedence(LE));
         }
         os << "<=";
-        get(1).print(os, old);
+        embrace(os, old, get(1), get_precedence(LE));
         os << "]";
         if (auto features1 = get(5); features1.get_kind() == Constants::LIST) {
             features1.print(os << " {", old);
